@@ -7,6 +7,7 @@ Notation: `X` training matrix (list of rows), `ids` the sensitive column positio
 `Z = nonSens ids m X`, `β = beta_` (a parameter: any matrix satisfying the normal equations).
 -/
 import FairModel.Lemmas.CorrRemover
+import FairModel.Lemmas.CorrLifted
 
 namespace C15
 open CorrRemover Finset
@@ -236,6 +237,106 @@ theorem drops_sensitive_keeps_order (p : Params) (X : Mat) :
     obtain ⟨x, _, rfl⟩ := hr
     exact length_transformRow p x
 
+/-! ### the tie to the source: definitions LIFTED from `_correlation_remover.py`
+(`Generated/CorrRemoverSrc.lean`, rewritten from /repo on every run by harness/lifters/corr_remover.py; `CorrL.*` is the
+model re-built from them).  The clauses of the property are re-proved for the lifted text, so an edit of the centring,
+of the lstsq operands, of the blend expression, of the column selection or of what `transform` re-uses re-checks them,
+breaks them, or is refused by the lifter. -/
+
+section Lifted
+open CorrL
+set_option linter.unusedTactic false
+set_option linter.unreachableTactic false
+
+/-- `self.sensitive_mean_ = X_sensitive.mean(axis=0)`: one mean PER sensitive column -/
+theorem lifted_mean_per_column : CorrRemoverSrc.fitMeanKind = .perColumn := by decide
+
+/-- `X_s_center = X_sensitive - self.sensitive_mean_` (this operand order), in `fit` (first operand of lstsq) and in
+    `transform` -/
+theorem lifted_center : CorrRemoverSrc.fitCenter = (fun s m => s - m) ∧
+    CorrRemoverSrc.transformCenter = (fun s m => s - m) := by
+  constructor
+  · first
+    | rfl
+    | (funext s m; simp only [CorrRemoverSrc.fitCenter]; ring)
+  · first
+    | rfl
+    | (funext s m; simp only [CorrRemoverSrc.transformCenter]; ring)
+
+/-- `transform` centres with the STORED training mean (and multiplies with the stored `beta_`): nothing is re-estimated -/
+theorem lifted_transform_uses_training_statistics : CorrRemoverSrc.transformMean = .stored := by decide
+
+/-- `alpha * (X_use - X_s_center.dot(beta_)) + (1 - alpha) * X_use`, entry-wise -/
+theorem lifted_out_entry : CorrRemoverSrc.outEntry = (fun a u pr => a * (u - pr) + (1 - a) * u) := by
+  first
+  | rfl
+  | (funext a u pr; simp only [CorrRemoverSrc.outEntry]; ring)
+
+/-- `_split_X`: sensitive positions in the order of `sensitive_feature_ids`; the others = `range(m)` minus those, in
+    ORIGINAL (increasing) order -/
+theorem lifted_split (ids : List Nat) (m : Nat) : sensIdx ids = ids ∧ keptIdx ids m = nonSensIdx ids m := by
+  have h1 : sensIdx ids = ids := by
+    simp [sensIdx, CorrRemoverSrc.sensitiveIdx]
+  refine ⟨h1, ?_⟩
+  unfold keptIdx
+  rw [h1]
+  simp [CorrRemoverSrc.nonSensitiveIdx, nonSensIdx]
+
+/-- the model re-built from the lifted text is the model the theorems above are about -/
+theorem src_model_eq (p : Params) (X : Mat) (ids : List Nat) (m : Nat) (β : Mat) :
+    transformSrc p X = transform p X ∧ fitMeanSrc ids X = fitMean ids X ∧
+    isLstsqSrc ids m X β = isLstsq (center (sens ids X) (fitMean ids X)) (nonSens ids m X) β ids.length
+      (nonSensIdx ids m).length :=
+  ⟨transformSrc_eq p X lifted_transform_uses_training_statistics lifted_center.2 lifted_out_entry
+      (lifted_split p.ids p.m).1 (lifted_split p.ids p.m).2,
+   fitMeanSrc_eq ids X lifted_mean_per_column (lifted_split ids m).1,
+   isLstsqSrc_eq ids m X β lifted_mean_per_column lifted_center.1 (lifted_split ids m).1 (lifted_split ids m).2⟩
+
+/-- MAIN CLAUSE for the lifted text: if `beta_` solves the least-squares problem `lstsq` is CALLED with in the source
+    (operands as lifted), the alpha = 1 output of the lifted `transform` with the mean the lifted `fit` stores has zero
+    sample covariance with every sensitive column of the training data. -/
+theorem src_uncorrelated (ids : List Nat) (m : Nat) (X β : Mat) (hfit : isLstsqSrc ids m X β = true)
+    (j k : Nat) (hj : j < (keptIdx ids m).length) (hk : k < ids.length) :
+    covNum (colOf (transformSrc ⟨ids, m, fitMeanSrc ids X, β, 1⟩ X) j) (colOf (sensSrc ids X) k) = 0 ∧
+    cov (colOf (transformSrc ⟨ids, m, fitMeanSrc ids X, β, 1⟩ X) j) (colOf (sensSrc ids X) k) = 0 := by
+  have e := src_model_eq ⟨ids, m, fitMeanSrc ids X, β, 1⟩ X ids m β
+  rw [e.2.2] at hfit
+  rw [(lifted_split ids m).2] at hj
+  have hs : sensSrc ids X = sens ids X := by unfold sensSrc sens; rw [(lifted_split ids m).1]
+  rw [e.1, e.2.1, hs]
+  exact uncorrelated ids m X β hfit j k hj hk
+
+/-- alpha blend for the lifted `transform`: output = alpha * (alpha-1 output) + (1 - alpha) * original -/
+theorem src_alpha_blend (p : Params) (X : Mat) (i j : Nat) (hi : i < X.length)
+    (hj : j < (keptIdx p.ids p.m).length) :
+    ent (transformSrc p X) i j = p.alpha * ent (transformSrc { p with alpha := 1 } X) i j
+      + (1 - p.alpha) * ent (useSrc p.ids p.m X) i j := by
+  rw [(src_model_eq p X p.ids p.m []).1, (src_model_eq { p with alpha := 1 } X p.ids p.m []).1]
+  rw [(lifted_split p.ids p.m).2] at hj
+  unfold transform useSrc
+  rw [ent_map _ _ _ _ hi, ent_map _ _ _ _ hi, ent_map _ _ _ _ hi, (lifted_split p.ids p.m).2]
+  exact alpha_blend p (X.getD i []) j hj
+
+/-- the lifted `transform` works row by row with the STORED mean and coefficients: new data get the map learned in fit -/
+theorem src_transform_new_data (p : Params) (Xnew Ynew : Mat) :
+    transformSrc p Xnew = Xnew.map (transformRow p) ∧
+    transformSrc p (Xnew ++ Ynew) = transformSrc p Xnew ++ transformSrc p Ynew := by
+  rw [(src_model_eq p Xnew p.ids p.m []).1, (src_model_eq p (Xnew ++ Ynew) p.ids p.m []).1,
+    (src_model_eq p Ynew p.ids p.m []).1]
+  exact transform_new_data p Xnew Ynew
+
+/-- the lifted `_split_X`: kept positions = the non-sensitive ones in increasing order; one output column per kept
+    position, one output row per input row -/
+theorem src_drops_sensitive_keeps_order (p : Params) (X : Mat) :
+    (∀ c, c ∈ keptIdx p.ids p.m ↔ c < p.m ∧ c ∉ p.ids)
+    ∧ (keptIdx p.ids p.m).Pairwise (· < ·)
+    ∧ (transformSrc p X).length = X.length
+    ∧ (∀ r ∈ transformSrc p X, r.length = (keptIdx p.ids p.m).length) := by
+  rw [(src_model_eq p X p.ids p.m []).1, (lifted_split p.ids p.m).2]
+  exact drops_sensitive_keeps_order p X
+
+end Lifted
+
 /-! ### Regression witness for F2 (grand mean instead of per-column means)
 
 With `sensitive_mean_ = X_sensitive.mean()` (one scalar for all columns) the normal equations
@@ -266,5 +367,8 @@ example : isLstsq (center (sens [0, 1] dupX) (fitMean [0, 1] dupX)) (nonSens [0,
   decide +kernel
 /-- ids given in non-increasing order: the kept columns still come out in their original order -/
 example : nonSensIdx [3, 0] 5 = [1, 2, 4] := by decide +kernel
+example : CorrL.keptIdx [3, 0] 5 = [1, 2, 4] := by decide +kernel
+example : CorrL.isLstsqSrc [0, 1] 3 f2X okβ = true := by decide +kernel
+example : CorrL.transformSrc ⟨[0, 1], 3, CorrL.fitMeanSrc [0, 1] f2X, okβ, 1/2⟩ f2X = [[1/6], [1/6], [2/3]] := by decide +kernel
 
 end C15
